@@ -29,7 +29,10 @@ def program_for(sc):
                   "  match Ev()", '  start UtteranceBotAction(script="t%d-second")' % t, "  match Never()", ""]
     for k, f in enumerate(sc["flows"]):
         levels = f.get("levels") or [f.get("priority")]
-        args = ", ".join("p%d=%d" % (i, v) for i, v in sorted((int(i), v) for i, v in f["mentions"].items()))
+        # a mentioned parameter may be spelt as a regular expression that matches exactly the value (counts as mentioned, see
+        # the documentation's regex(".*") advice)
+        rx = set(f.get("regex", []))
+        args = ", ".join(("p%d=regex(\"^%d$\")" % (i, v)) if str(i) in rx else ("p%d=%d" % (i, v)) for i, v in sorted((int(i), v) for i, v in f["mentions"].items()))
         for li, prio in enumerate(levels):
             name = "c%d" % k if li == 0 else "c%di%d" % (k, li)
             if li == 0 and f.get("loop"):
@@ -43,7 +46,9 @@ def program_for(sc):
                 # the event is matched further down: every level adds one match (FlowFinished of the level below) to the chain
                 lines.append("  await c%di%d" % (k, li + 1))
             if li == 0:
-                lines.append('  start UtteranceBotAction(script="%s")' % f["action"])
+                # identical actions are identical whatever the order their arguments are written in
+                a1, a2 = 'script="%s"' % f["action"], "intensity=1.0"
+                lines.append("  start UtteranceBotAction(%s)" % (", ".join([a2, a1]) if f.get("args_swapped") else ", ".join([a1, a2])))
                 lines.append("  match Hold()")
             lines.append("")
     return "\n".join(lines)
@@ -96,7 +101,8 @@ class C05(InterpProp):
             depth = d.weighted([(1, 5), (2, 3), (3, 2)], "depth", k)
             levels = [d.choice(PRIORITIES, "prio", k)] + [d.choice(PRIORITIES, "lprio", k, li) for li in range(1, depth)]
             flows.append({"mentions": mentions, "priority": levels[0], "levels": levels, "loop": d.choice(LOOPS, "loop", k),
-                          "action": "shared" if shared else "a%d" % k, "matches": not wrong})
+                          "action": "shared" if shared else "a%d" % k, "matches": not wrong,
+                          "regex": [i for i in sorted(mentions) if d.chance(0.2, "rx", k, i)], "args_swapped": d.chance(0.4, "swap", k)})
         return {"m": m, "actual": actual, "flows": flows, "trackers": d.weighted([(0, 5), (1, 3), (2, 2)], "trackers")}
 
     def run_pick(self, sc, program, pick):
